@@ -105,7 +105,7 @@ impl Names {
         };
         n.left_private = lp;
         n.right_private = rp;
-        n.symbols = vec!["u".into(), "s_s".into(), "b__s".into(), "m_g".into(), "aB_1".into(), "vertex_11".into(), "vertex_10".into(), "vertex_1".into()];
+        n.symbols = vec!["u".into(), "s_s".into(), "b__s".into(), "m_g".into(), "aB_1".into(), "vertex_11".into(), "vertex_10".into(), "vertex_1".into(), "vertex_2".into(), "vertex_09".into()];
         if c.flag(1, 2) {
             // a 0-ary output predicate whose name is also used as a symbol (anthem renames the symbol)
             n.outputs.push(p("z", 0));
@@ -928,6 +928,51 @@ pub fn rename_program_variables(p: &mut asp::Program, x: &str, y: &str) {
 
 pub fn external_task_with(c: &mut Chooser, names: Names) -> ExternalTask {
     let mut task = external_task_plain(c, names);
+    // one task in three (choice vectors of 180 and more entries; shorter recorded ones keep their
+    // meaning) also has a binary input predicate e2 and a binary output predicate p2, defined on the
+    // first side by `p2(X,Y) :- e2(X,Y), in(X).` and on the second side by an equivalent or a
+    // different variant; every other generator works with predicates of arity 0 and 1 only
+    if c.data.len() >= 180 && c.aux(101, 3) == 0 && task.names.inputs[0].1 == 1 {
+        let i = task.names.inputs[0].0.clone();
+        let first = format!("p2(X,Y) :- e2(X,Y), {i}(X).");
+        let second = [
+            format!("p2(X,Y) :- {i}(X), e2(X,Y)."),
+            format!("p2(X,Y) :- e2(X,Y), {i}(X), X = X."),
+            "p2(X,Y) :- e2(X,Y).".to_string(),
+            format!("p2(Y,X) :- e2(X,Y), {i}(X)."),
+            format!("p2(X,Y) :- e2(X,Y), {i}(X), not e2(Y,X)."),
+            format!("p2(X,Y) :- e2(X,Y), {i}(X).\np2(X,X) :- e2(X,X)."),
+        ][c.aux(102, 6)]
+        .clone();
+        if let Ok(p) = second.parse::<asp::Program>() {
+            task.right.rules.extend(p.rules);
+        }
+        match (task.left_program.as_mut(), task.left_spec.as_mut()) {
+            (Some(p), _) => {
+                if let Ok(r) = first.parse::<asp::Rule>() {
+                    p.rules.push(r);
+                }
+            }
+            (_, Some(spec)) => {
+                if let Ok(f) = format!("forall X Y (p2(X,Y) <-> e2(X,Y) and {i}(X))").parse::<fol::Formula>() {
+                    spec.formulas.push(annotated(fol::Role::Spec, fol::Direction::Universal, "about_p2", f));
+                }
+            }
+            _ => {}
+        }
+        task.user_guide.entries.push(fol::UserGuideEntry::InputPredicate(fol::Predicate { symbol: "e2".into(), arity: 2 }));
+        task.user_guide.entries.push(fol::UserGuideEntry::OutputPredicate(fol::Predicate { symbol: "p2".into(), arity: 2 }));
+        task.names.inputs.push(("e2".to_string(), 2));
+        task.names.outputs.push(("p2".to_string(), 2));
+    }
+    // one program-vs-program task in eight: the second program has lost every rule of every output
+    // predicate (a draft that does not derive its outputs yet): several declared output predicates occur
+    // on one side only
+    if c.data.len() >= 180 && c.aux(103, 8) == 0 && task.left_program.is_some() && task.names.outputs.len() >= 2 {
+        let outputs: Vec<String> = task.names.outputs.iter().map(|o| o.0.clone()).collect();
+        task.right.rules.retain(|r| !r.head.predicate().is_some_and(|h| outputs.contains(&h.symbol)));
+        task.mutation = "all-output-rules-dropped";
+    }
     // in one task of three the program variables carry names that tau*, natural and the simplifier
     // also use for their fresh variables (decided without consuming a choice)
     const ALIASES: [(&str, &str); 6] = [("K", "I"), ("J", "N"), ("I", "J1"), ("V1", "Z"), ("Q", "R"), ("N1", "K")];
